@@ -432,6 +432,7 @@ impl TCheck for C13 {
             }),
             record_events: true,
             hard_fault: false,
+            one_cpu: false,
         }
     }
     fn history_oracle(&self, events: &[crate::exec::Event], _report: &BodyReport) -> Vec<String> {
